@@ -128,11 +128,25 @@ class BaseSQLURLTable(BaseURLTable):
 
                 added_urls = get_inserted_urls()
 
-            hostnames = (URLInfo.parse(url).hostname for url in added_urls)
-            session.execute(
-                insert(Hostname).prefix_with('OR IGNORE'),
-                [{'hostname': hostname} for hostname in hostnames]
+            # Only the URLs the crawl was started with (level 0) define the
+            # hosts that the span hosts filter permits; hosts of discovered
+            # links must not become permitted hosts after a restart.
+            top_urls = frozenset(
+                url for url, url_properties, url_data in new_urls
+                if not url_properties or not url_properties.level
             )
+            hostnames = [
+                {'hostname': hostname}
+                for url, hostname in [
+                    (url, URLInfo.parse(url).hostname) for url in added_urls
+                ]
+                if url in top_urls
+            ]
+
+            if hostnames:
+                session.execute(
+                    insert(Hostname).prefix_with('OR IGNORE'), hostnames
+                )
 
         return added_urls
 
